@@ -181,6 +181,8 @@ def random_history(rng, maxlen=8, with_rejects=False, continuation=True):
         ops.append({"k": "recreate", "strategy": rng.choice(["PiecewiseConstant", "LinearFixed", "ExpFixed", "LinearAdaptive", "ExpAdaptive"]),
                     "n": n, "a": rng.choice([-1, rng.randint(0, n)]), "alpha": R(rng.choice([1, Fraction(1, 2)])),
                     "beta": R(rng.choice([0, Fraction(1, 2), 1])), "exp": R(rng.choice([1, 2])), "smooth": 1})
+        if rng.random() < 0.15:       # recreate_from_average(n) with the documented default strategy and parameters
+            ops[-1].update({"strategy": "ExpAdaptive", "a": -1, "alpha": R(1), "beta": R(Fraction(1, 2)), "exp": R(2), "smooth": 1, "defaults": True})
         ops.append({"k": "integral_match", "trule": rng.choice(["trapezoid", "rectangle"]), "rrule": "rectangle", "alpha": R(1)})
         if with_rejects:
             sim2 = XSim(sim.x)
